@@ -334,5 +334,5 @@ func TestVerifC07(t *testing.T) {
 			c07L.close()
 		}
 	}()
-	vfutil.Run(t, vfutil.Spec[c07Case]{ID: "C07", Gen: genC07, Run: runC07})
+	vfutil.Run(t, vfutil.Spec[c07Case]{ID: "C07", Gen: genC07, Run: runC07, Journal: true})
 }
